@@ -176,6 +176,11 @@ func (checker *Checker) iterableElementType(valueType Type, hasPosition ast.HasP
 	case ArrayType:
 		return valueType.ElementType(false)
 	case *InclusiveRangeType:
+		// The type might not be instantiated.
+		// A missing type argument is reported for the type annotation
+		if valueType.MemberType == nil {
+			return InvalidType
+		}
 		return valueType.MemberType
 	case *DictionaryType:
 		return valueType.KeyType
